@@ -597,7 +597,9 @@ def _b_isinstance(it, args, kw):
         return _cls_match(int, classes)
     if isinstance(obj, SBool):
         return _cls_match(bool, classes)
-    if isinstance(obj, (Seg, Fold, Poison)):
+    if isinstance(obj, Poison):
+        raise Unsupported(f"use of untracked value: {obj.why}")
+    if isinstance(obj, (Seg, Fold)):
         if isinstance(obj, Fold):
             raise Unsupported("isinstance of a fold value")
         raise Unsupported("isinstance of a segment marker")
@@ -904,6 +906,22 @@ def _b_any_all(which):
         (x,) = args
         if isinstance(x, IGen):
             x = it.drain(x)
+        if isinstance(x, list) and (has_seg(x) or any(isinstance(e, SBool) for e in x)):
+            # any/all over truth values; a segment contributes its (round-independent)
+            # item values iff it is non-empty
+            want = which is any
+            for e in x:
+                if isinstance(e, Seg):
+                    vals = e.items
+                    if not all(isinstance(v, bool) for v in vals):
+                        raise Unsupported(f"{which.__name__} over a segment of non-constant truth values")
+                    if any(v is want for v in vals):
+                        if ctx().branch(zint(e.length) > 0):
+                            return want
+                else:
+                    if ops.truth(e) is want:
+                        return want
+            return not want
         if contains_symbolic(x, 1):
             raise Unsupported(f"{which.__name__} over symbolic values")
         return which(x)
